@@ -20,6 +20,7 @@ type Loaded struct {
 	pkgs             []*ssa.Package
 	byPath           map[string]*ssa.Package
 	runtimeErrorType types.Type
+	plainErrorType   types.Type
 	errorStringPtr   types.Type
 	wrapErrorPtr     types.Type
 }
@@ -64,6 +65,9 @@ func loadProgram(repoDir string, overlay map[string][]byte, patterns []string, t
 		return nil, fmt.Errorf("runtime package not loaded")
 	}
 	ld.runtimeErrorType = rtp.Type("errorString").Object().Type()
+	if pe := rtp.Type("plainError"); pe != nil {
+		ld.plainErrorType = pe.Object().Type()
+	}
 	if ep := ld.byPath["errors"]; ep != nil {
 		ld.errorStringPtr = types.NewPointer(ep.Type("errorString").Object().Type())
 	}
